@@ -27,7 +27,7 @@ theorem lse_ring_pure (r : Ring Job) (pc : RingPc Job) (c : Frame) (rb : Bool) (
       cases c <;> simp [LW.callerOk, LW.isPopPc, LW.pushCaller] at hcall <;>
         simp [lsePayC, LW.isPopPc, lsRestr, lsNonePc] at hpay <;>
         simp [lsFr, lsCapt, lsCaptPc, hpay]
-      all_goals omega
+      all_goals first | omega | (cases d <;> simp_all)
     · simp only [lsAfter]
       cases c <;> simp [LW.callerOk, LW.isPopPc, LW.pushCaller] at hcall <;> simp [lsFr, lsCapt, lsCaptPc]
   case popCas h =>
@@ -165,5 +165,292 @@ theorem lse_stack_step {cfg : Config} {s s' : State} {t : Tid} {o : List String}
       · exact hI.pay u thu h2
       · simp [lsePayOk_cons, lsePayOk_nil, lsePadj]
       · simp [lsePayOk_cons, lsePayOk_nil, lsePadj]
+
+/-! ### helpers -/
+
+structure LseNum (s : State) : Prop where
+  l : ∀ p u, s.pool = some p → lsM2At s u ≤ p.threadCount
+  r : ∀ p u, s.pool = some p → 1 ≤ lsRaAt s u → p.minT < p.threadCount
+  e : ∀ p, s.pool = some p →
+    (¬ lsDone s → tsum s.nthreads (lsAt p.ring.pushLog s) = lsTq p.ring.head p.ring.pushLog + p.threadCount) ∧
+    (lsDone s → tsum s.nthreads (lsAt p.ring.pushLog s) = lsTq p.ring.head p.ring.pushLog)
+
+theorem lsRA_noHold {l : List Frame} (h : 1 ≤ lsum lsRA l) : noHold l = false := by
+  induction l with
+  | nil => simp at h
+  | cons a l ih =>
+    simp only [lsum_cons] at h
+    by_cases ha : 1 ≤ lsRA a
+    · have : poolHold a = true := by cases a <;> first | rfl | (simp [lsRA] at ha)
+      simp [noHold, this]
+    · simp [noHold, ih (by omega)]
+
+theorem lsM2_pos {l : List Frame} (h : 1 ≤ lsum lsM2 l) : ∃ f ∈ l, ∀ s : State, Phase s f → AllFin s := by
+  induction l with
+  | nil => simp at h
+  | cons a l ih =>
+    simp only [lsum_cons] at h
+    by_cases ha : 1 ≤ lsM2 a
+    · refine ⟨a, List.mem_cons_self .., ?_⟩
+      cases a <;> simp [lsM2] at ha <;> exact fun s h => h
+    · obtain ⟨f, hf, h2⟩ := ih (by omega)
+      exact ⟨f, List.mem_cons_of_mem _ hf, h2⟩
+
+theorem lse_allfin_nonclient {cfg : Config} {s : State} (hr : Reach cfg s) (hall : AllFin s) {t : Tid} {th : Thread}
+    (hth : s.threads t = some th) (hfin : th.finished = false) : AllNC th.stack := by
+  rcases (reach_join hr).kinds t th hth with h3 | h3
+  · obtain ⟨th2, h4, h5⟩ := hall t h3
+    rw [hth] at h4; injection h4 with h4; subst h4; rw [hfin] at h5; cases h5
+  · exact h3
+
+/-- if some thread is inside the destructor loop, every client has finished -/
+theorem lse_m2_allfin {cfg : Config} {s : State} (hr : Reach cfg s) {u : Tid} (h : 1 ≤ lsM2At s u) : AllFin s := by
+  simp only [lsM2At] at h
+  cases hthu : s.threads u with
+  | none => rw [hthu] at h; simp at h
+  | some thu =>
+    rw [hthu] at h
+    obtain ⟨f, hf, h2⟩ := lsM2_pos h
+    exact h2 s ((reach_join hr).phase u thu hthu f hf)
+
+theorem lse_done_allfin {cfg : Config} {s : State} (hr : Reach cfg s) (hd : lsDone s) : AllFin s := by
+  obtain ⟨u, thu, hthu, h1⟩ := hd
+  obtain ⟨f, hf, h2⟩ := lsDJ_pos h1
+  have hph := (reach_join hr).phase u thu hthu f hf
+  rcases h2 with ⟨i, rfl⟩ | rfl <;> exact hph
+
+theorem lsum_afterStk {g : Frame → Nat} (hg : ∀ pc, g (.ring pc) = 0) (res : RingRes Job) (pc : RingPc Job)
+    (rest : List Frame) : lsum g (lsAfterStk res rest) = lsum g (.ring pc :: rest) := by
+  cases res <;> simp [lsAfterStk, hg]
+
+/-! ### a `push`/`pop` micro-step -/
+
+theorem lse_num_ring {cfg : Config} {s : State} {t : Tid} {th : Thread} {pc : RingPc Job} {rest : List Frame}
+    {p : Pool} {o : List String}
+    (hrep : cfg.repaired = true) (hr : Reach cfg s) (hI : LseInv s)
+    (hth : s.threads t = some th) (hst : th.stack = .ring pc :: rest) (hp : s.pool = some p)
+    (hstep : step s t = some ((stepFrame s t th (.ring pc)).1, o)) : LseNum (stepFrame s t th (.ring pc)).1 := by
+  have hrep' : s.cfg.repaired = true := by rw [reach_cfg hr]; exact hrep
+  have hr' : Reach cfg (stepFrame s t th (.ring pc)).1 := Reach.step t hr hstep
+  have htlt := ls_thread_lt hr hth
+  have hK := LW.shapeK s t th (.ring pc) rest hth hst hrep'
+  have hadj := (LW.stk_reach hrep hr).adj t th hth
+  rw [hst] at hadj
+  have hcall0 : LW.callerOk pc rest.head? = true := hadj.1
+  obtain ⟨c, rest2, hrest⟩ : ∃ c rest2, rest = c :: rest2 := by
+    cases rest with
+    | nil => simp [LW.callerOk] at hcall0
+    | cons c rest2 => exact ⟨c, rest2, rfl⟩
+  subst hrest
+  have hcall : LW.callerOk pc (some c) = true := hcall0
+  have hpay : lsePayC pc (some c) = true := by
+    have := hI.pay t th hth; rw [hst] at this; exact this.1
+  have hallB : LsAllB rest2 := by
+    have := hI.cb t th hth; rw [hst] at this
+    exact this.2.1 (by simp [lseC, lsC_of_caller hcall])
+  obtain ⟨th', h1, h2, h3, h4, h5, h6⟩ := ls_ring_desc s t th pc (c :: rest2) p hp hst
+  have hthr : ∀ u, u ≠ t → (stepFrame s t th (.ring pc)).1.threads u = s.threads u := by
+    intro u hu; rw [h1, upd_ne _ _ hu]
+  have hm2 : ∀ u, lsM2At (stepFrame s t th (.ring pc)).1 u = lsM2At s u := by
+    intro u
+    by_cases hu : u = t
+    · subst hu
+      simp only [lsM2At, h1, upd_same, hth, h6, hst]
+      exact lsum_afterStk (fun _ => rfl) _ pc _
+    · simp only [lsM2At, hthr u hu]
+  have hra : ∀ u, lsRaAt (stepFrame s t th (.ring pc)).1 u = lsRaAt s u := by
+    intro u
+    by_cases hu : u = t
+    · subst hu
+      simp only [lsRaAt, h1, upd_same, hth, h6, hst]
+      exact lsum_afterStk (fun _ => rfl) _ pc _
+    · simp only [lsRaAt, hthr u hu]
+  have hdj : lsDjAt (stepFrame s t th (.ring pc)).1 t = lsDjAt s t := by
+    simp only [lsDjAt, h1, upd_same, hth, h6, hst]
+    exact lsum_afterStk (fun _ => rfl) _ pc _
+  have hdone : lsDone (stepFrame s t th (.ring pc)).1 ↔ lsDone s := by
+    constructor
+    · intro hd
+      rcases ls_done_cases hK hd with hd | hd
+      · exact hd
+      · rw [hdj] at hd; exact ⟨t, th, hth, by simpa [lsDjAt, hth] using hd⟩
+    · rintro ⟨u, thu, hthu, hd⟩
+      by_cases hu : u = t
+      · subst hu
+        have : 1 ≤ lsDjAt s u := by simpa [lsDjAt, hthu] using hd
+        rw [← hdj] at this
+        simp only [lsDjAt, h1, upd_same] at this
+        exact ⟨u, th', by rw [h1, upd_same], this⟩
+      · exact ⟨u, thu, by rw [hthr u hu]; exact hthu, hd⟩
+  refine ⟨?_, ?_, ?_⟩
+  · intro p0 u hp0
+    rw [h2] at hp0; injection hp0 with hp0; subst hp0
+    rw [hm2 u]; exact hI.l p u hp
+  · intro p0 u hp0 h
+    rw [h2] at hp0; injection hp0 with hp0; subst hp0
+    rw [hra u] at h; exact hI.r p u hp h
+  · intro p0 hp0
+    rw [h2] at hp0; injection hp0 with hp0; subst hp0
+    simp only []
+    have hlen := full_pushLog_len hr hp
+    have hht : p.ring.head ≤ p.ring.pushLog.length := by rw [hlen]; exact full_head_le_tail hr hp
+    have hcas : ∀ h, pc = .popCas h → p.ring.head = h → h < p.ring.pushLog.length := by
+      intro h hpc heq
+      subst hpc
+      have h7 := full_head_le_tail hr' h2
+      simp [ringStep, heq] at h7
+      omega
+    have hrel : ∀ x d, pc = .popRel x d → ∃ j, d = some j ∧ p.ring.pushLog[x]? = some j := by
+      intro x d hpc
+      subst hpc
+      have htop : th.stack.head? = some (.ring (.popRel x d)) := by rw [hst]; rfl
+      obtain ⟨_, h8⟩ := full_popRel_payload hr hp hth htop
+      obtain ⟨j, h9⟩ := full_popRel_some hr hp hth htop
+      exact ⟨j, h9, by rw [← h8, h9]⟩
+    have hpure := lse_ring_pure p.ring pc c th.retB th.retJob hcall hpay hht hcas hrel
+    have ha : lsAt p.ring.pushLog s t = lsFr th.retB th.retJob p.ring.pushLog (some pc) c := by
+      simp [lsAt, lsVal, hth, lsW, hst, lsFr_ring, lsRingOf, lsStk_base _ _ _ _ hallB]
+    have ha' : lsAt (ringStep p.ring pc).1.pushLog (stepFrame s t th (.ring pc)).1 t =
+        lsFr (lsAfter th.retB th.retJob (ringStep p.ring pc).2).1 (lsAfter th.retB th.retJob (ringStep p.ring pc).2).2.1
+          (ringStep p.ring pc).1.pushLog (lsAfter th.retB th.retJob (ringStep p.ring pc).2).2.2 c := by
+      simp only [lsAt, h1, upd_same, lsVal, lsW, h4, h5, h6]
+      cases hres : (ringStep p.ring pc).2 with
+      | cont pc' => simp [lsAfter, lsAfterStk, lsFr_ring, lsRingOf, lsStk_base _ _ _ _ hallB]
+      | pushed ok => simp [lsAfter, lsAfterStk, lsFr_ring, lsRingOf, lsStk_base _ _ _ _ hallB]
+      | popped x =>
+        rcases x with _ | _ | j <;> simp [lsAfter, lsAfterStk, lsFr_ring, lsRingOf, lsStk_base _ _ _ _ hallB]
+    have hoth : ∀ u, u < s.nthreads → u ≠ t →
+        lsAt (ringStep p.ring pc).1.pushLog (stepFrame s t th (.ring pc)).1 u = lsAt p.ring.pushLog s u := by
+      intro u hu hne
+      simp only [lsAt, h1, upd_ne _ _ hne]
+      cases hthu : s.threads u with
+      | none => rfl
+      | some thu =>
+        simp only [lsVal]
+        rcases ls_ring_log p.ring pc with h | ⟨d, h⟩
+        · rw [h]
+        · rw [h]; exact ls_log_stable hr hp hthu d
+    have hsum := ls_sum (s := s) (s' := (stepFrame s t th (.ring pc)).1) (f := lsAt p.ring.pushLog s)
+      (g := lsAt (ringStep p.ring pc).1.pushLog (stepFrame s t th (.ring pc)).1) htlt hoth (Or.inl h3)
+    rw [if_pos h3] at hsum
+    obtain ⟨e1, e2⟩ := hI.e p hp
+    constructor
+    · intro hnd
+      have := e1 (fun h => hnd (hdone.mpr h))
+      omega
+    · intro hd
+      have := e2 (hdone.mp hd)
+      omega
+
+/-! ### a step that creates the pool -/
+
+theorem lsM2_pre {l : List Frame} (h : AllPre l) (hd : ∀ f ∈ l, ∀ i, f ≠ .dPush i) : lsum lsM2 l = 0 := by
+  induction l with
+  | nil => rfl
+  | cons a l ih =>
+    rw [allPre_cons] at h
+    have : lsM2 a = 0 := by
+      have h1 := h.1
+      have h2 := hd a (List.mem_cons_self ..)
+      cases a <;> first | rfl | (simp [prePool] at h1; done) | (exact absurd rfl (h2 _))
+    simp only [lsum_cons, this, ih h.2 (fun f hf => hd f (List.mem_cons_of_mem _ hf))]
+
+theorem lsRA_pre {l : List Frame} (h : AllPre l) : lsum lsRA l = 0 := by
+  induction l with
+  | nil => rfl
+  | cons a l ih =>
+    rw [allPre_cons] at h
+    have : lsRA a = 0 := by
+      have h1 := h.1
+      cases a <;> first | rfl | (simp [prePool] at h1; done)
+    simp only [lsum_cons, this, ih h.2]
+
+theorem lse_early_zero {cfg : Config} {s : State} {t : Tid} {th : Thread} {c : Nat} {rest : List Frame}
+    (hr : Reach cfg s) (hI : LseInv s) (hth : s.threads t = some th) (hst : th.stack = .cRdTp2 c :: rest)
+    (hfin : th.finished = false) (htp : s.tp = false) : (∀ u, lsM2At s u = 0) ∧ (∀ u, lsRaAt s u = 0) := by
+  by_cases hl : poolAlive s
+  · have hE := (reach_inv hr).early hl htp
+    cases hp : s.pool with
+    | none =>
+      constructor
+      · intro u
+        simp only [lsM2At]
+        cases hthu : s.threads u with
+        | none => rfl
+        | some thu =>
+          apply lsM2_pre (hE.pre u thu hthu)
+          intro f hf i hfi
+          subst hfi
+          by_cases hu : u = 0
+          · subst hu
+            obtain ⟨p, hp2⟩ := (reach_finInv hr).dph thu _ hthu hf
+            rw [hp] at hp2; cases hp2
+          · have := (reach_join hr).mainOnly u thu hthu hu _ hf
+            simp [bottomFr] at this
+      · intro u
+        simp only [lsRaAt]
+        cases hthu : s.threads u with
+        | none => rfl
+        | some thu => exact lsRA_pre (hE.pre u thu hthu)
+    | some p =>
+      have hpm := hE.ctxs p hp
+      constructor
+      · intro u
+        have := hI.l p u hp
+        rw [hpm] at this
+        simp [mkPool] at this
+        exact this
+      · intro u
+        cases Nat.eq_zero_or_pos (lsRaAt s u) with
+        | inl h => exact h
+        | inr h =>
+          have := hI.r p u hp h
+          rw [hpm] at this
+          simp [mkPool] at this
+  · exfalso
+    obtain ⟨hall, _, _⟩ := (reach_join hr).dead hl
+    have h3 := lse_allfin_nonclient hr hall hth hfin
+    rw [hst, allNC_cons] at h3; simp [ncFr] at h3
+
+theorem lse_num_create {s s' : State} {t : Tid} {th : Thread} {fr X : Frame} {rest : List Frame}
+    (hth : s.threads t = some th) (hst : th.stack = fr :: rest)
+    (hX : s'.threads = upd s.threads t (some (th.cont [X]))) (hX0 : ∀ rb rj log ab, lsFr rb rj log ab X = 0)
+    (hXr : lsRingOf X = none) (hfr : lsRingOf fr = none) (hXm : lsM2 X = 0) (hXa : lsRA X = 0)
+    (hn : s'.nthreads = s.nthreads)
+    (hlog : ∀ p', s'.pool = some p' → p'.ring.pushLog = [] ∧ p'.threadCount = 0)
+    (hZ : ∀ u thu, s.threads u = some thu → lsW [] thu = 0)
+    (hZ2 : ∀ u, lsM2At s u = 0) (hZ3 : ∀ u, lsRaAt s u = 0) : LseNum s' := by
+  have hm : ∀ u, lsM2At s' u = 0 := by
+    intro u
+    by_cases hu : u = t
+    · subst hu
+      have := hZ2 u
+      simp only [lsM2At, hth, hst, lsum_cons] at this
+      simp only [lsM2At, hX, upd_same, Thread.cont, hst, List.drop_one, List.tail_cons, List.cons_append,
+        List.nil_append, lsum_cons, hXm]
+      omega
+    · have := hZ2 u
+      simp only [lsM2At, hX, upd_ne _ _ hu] at this ⊢
+      exact this
+  have ha : ∀ u, lsRaAt s' u = 0 := by
+    intro u
+    by_cases hu : u = t
+    · subst hu
+      have := hZ3 u
+      simp only [lsRaAt, hth, hst, lsum_cons] at this
+      simp only [lsRaAt, hX, upd_same, Thread.cont, hst, List.drop_one, List.tail_cons, List.cons_append,
+        List.nil_append, lsum_cons, hXa]
+      omega
+    · have := hZ3 u
+      simp only [lsRaAt, hX, upd_ne _ _ hu] at this ⊢
+      exact this
+  refine ⟨?_, ?_, ?_⟩
+  · intro p' u _; rw [hm u]; exact Nat.zero_le _
+  · intro p' u _ h; rw [ha u] at h; omega
+  · intro p' hp'
+    have hz := ls_num_create hth hst hX hX0 hXr hfr hn (fun p' hp' => (hlog p' hp').1) hZ p' hp'
+    obtain ⟨h1, h2⟩ := hlog p' hp'
+    rw [hz, h1, h2]
+    simp [lsTq, lsCnt]
 
 end Nstd.Future.LS
